@@ -4,12 +4,12 @@ CONSTANTS
     T = 2
     Grace = 0
     MaxCalls = 1
-    Transport = "unix"
+    Transport = "tcp"
     StaleFix = TRUE
-    Hooks = FALSE
+    Hooks = TRUE
     Mode = "edges"
     Depth = 0
     Eager = TRUE
-    SSHook = FALSE
+    SSHook = TRUE
 VIEW View
 CHECK_DEADLOCK FALSE
